@@ -20,7 +20,7 @@ pub enum BOp {
     Add { dc: u32, sl: u32, sc: u32, src: Option<String>, name: Option<String>, range: bool },
     /// ids are selectors mapped onto the ids valid at that point
     /// `add_token` with a token of another (one-token) map whose source and name sit at index 0
-    AddToken { dc: u32, sl: u32, sc: u32, src: Option<String>, name: Option<String>, with_name: bool },
+    AddToken { dc: u32, sl: u32, sc: u32, src: Option<String>, name: Option<String>, with_name: bool, #[serde(default)] range: bool },
     AddRaw { dc: u32, sl: u32, sc: u32, src: Option<u16>, name: Option<u16>, range: bool },
     SetSourceContents(u16, Option<String>),
     AddToIgnoreList(u32),
@@ -165,7 +165,7 @@ fn check(c: &Case, obs: &mut Obs) -> Verdict {
                     }
                     m.tokens.push((line, *dc, *sl, *sc, src.clone(), name.clone(), *range));
                 }
-                BOp::AddToken { dc, sl, sc, src, name, with_name } => {
+                BOp::AddToken { dc, sl, sc, src, name, with_name, range } => {
                     // a map of its own for every call: the token's source and name ids are always 0
                     let name = if src.is_some() { name.clone() } else { None };
                     let other = sourcemap::SourceMap::new(
@@ -177,7 +177,7 @@ fn check(c: &Case, obs: &mut Obs) -> Verdict {
                             src_col: *sc,
                             src_id: if src.is_some() { 0 } else { !0 },
                             name_id: if name.is_some() { 0 } else { !0 },
-                            is_range: false,
+                            is_range: *range,
                         }],
                         name.iter().map(|n| std::sync::Arc::<str>::from(n.as_str())).collect(),
                         src.iter().map(|s| std::sync::Arc::<str>::from(s.as_str())).collect(),
@@ -194,7 +194,7 @@ fn check(c: &Case, obs: &mut Obs) -> Verdict {
                             raw.src_id, raw.name_id, ws, wn
                         ));
                     }
-                    m.tokens.push((line, *dc, *sl, *sc, src.clone(), kept, false));
+                    m.tokens.push((line, *dc, *sl, *sc, src.clone(), kept, *range));
                 }
                 BOp::AddRaw { dc, sl, sc, src, name, range } => {
                     let sid = pick_id(*src, m.sources.len());
@@ -433,7 +433,7 @@ fn bop() -> BoxedStrategy<BOp> {
         3 => (0u32..50, small_or_edge(), small_or_edge(), proptest::option::weighted(0.8, any::<u16>()), proptest::option::of(any::<u16>()), any::<bool>())
             .prop_map(|(dc, sl, sc, src, name, range)| BOp::AddRaw { dc, sl, sc, src, name, range }),
         2 => (0u32..50, small_or_edge(), small_or_edge(), proptest::option::weighted(0.85, src_string()), proptest::option::of(name_string()), any::<bool>())
-            .prop_map(|(dc, sl, sc, src, name, with_name)| BOp::AddToken { dc, sl, sc, src, name, with_name }),
+            .prop_map(|(dc, sl, sc, src, name, with_name)| BOp::AddToken { dc, sl, sc, src, name, with_name, range: dc % 3 == 0 }),
         3 => (any::<u16>(), content_opt()).prop_map(|(i, t)| BOp::SetSourceContents(i, t)),
         1 => (0u32..8).prop_map(BOp::AddToIgnoreList),
         1 => root_opt().prop_map(BOp::SetSourceRoot),
